@@ -26,7 +26,7 @@ import (
 
 type seg struct {
 	off, n int
-	kind   string // fixed-width-int | bool | compact-uint | compact-bigint | bytes | uint128 | option-tag | enum-tag | result-tag
+	kind   string // fixed-width-int | bool | compact-uint | compact-bigint | byte-string | uint128 | option-tag | enum-tag | result-tag
 	val    uint64
 	wide   bool
 	isLen  bool
@@ -176,11 +176,11 @@ func (w *walker) bytesLeaf(isString bool) bool {
 	if rem < l {
 		w.declaredShort = true
 		if rem == 0 {
-			return w.fail("short-eof", "bytes")
+			return w.fail("short-eof", "byte-string")
 		}
-		return w.fail("short-partial", "bytes")
+		return w.fail("short-partial", "byte-string")
 	}
-	w.segs = append(w.segs, seg{off: w.pos, n: int(l), kind: "bytes"})
+	w.segs = append(w.segs, seg{off: w.pos, n: int(l), kind: "byte-string"})
 	w.pos += int(l)
 	return true
 }
